@@ -40,7 +40,7 @@ def main(ctx):
     if ctx.replay:
         blob = json.load(open(ctx.replay))
         case = blob["case"]
-        if case.get("op") in ("cmd", "fault"):
+        if case.get("op") in ("cmd", "cmdslow", "fault"):
             tr = ctx.path("trace.ndjson")
             vlib.write_ndjson(tr, [case])
             events, rejects = ctx.trace_validate("WriterFaultTrace", "WriterFaultTrace.cfg", tr)
@@ -92,7 +92,9 @@ def main(ctx):
     events, rejects = ctx.trace_validate("WriterFaultTrace", "WriterFaultTrace.cfg", trace)
     for r in rejects:
         ev = events[r["l"] - 1]
-        if ev["op"] == "cmd":
+        if ev["op"] == "cmdslow":
+            ctx.violation("C18.cmd." + r["why"], ev["cls"], "%s -> rc=%d with %d of %d records delivered" % (ev["argv"], ev["rc"], ev["got"], ev["want"]), ev)
+        elif ev["op"] == "cmd":
             ctx.violation("C18.cmd." + r["why"], ev["cls"], "%s -> rc=%d" % (ev["argv"], ev["rc"]), ev)
         else:
             ctx.violation("C18.%s.trace_%s" % (ev["fmt"], r["why"]), "z%d" % ev["compressed"],
@@ -147,8 +149,31 @@ def command_events(ctx):
                 % (fifo, fifo, fifo, conv, cpu, " ".join(extra), fifo, huge), "closedpipe-named/huge/%s" % name, shell=True)
         add("%s %s %s | head -c 100 > /dev/null; exit ${PIPESTATUS[0]}" % (conv, " ".join(extra), huge), "closedpipe-stdout/huge/%s" % name, shell="bash")
     add("%s --ids --sequence %s | head -c 100 > /dev/null; exit ${PIPESTATUS[0]}" % (csv, huge), "closedpipe-stdout/huge/csv", shell="bash")
+    # the command is stopped by a signal while its output is blocked (a reader that holds the pipe and takes nothing):
+    # the result has not reached the output, the exit status cannot be 0
+    for extra, name in (([], "fasta"), (["--json-output"], "json")):
+        for sig in ("TERM", "INT", "HUP"):
+            fifo = "fifo_sig_%s_%s" % (name, sig)
+            add("rm -f %s; mkfifo %s; sleep 60 < %s > /dev/null & r=$!; %s --max-cpu 2 %s -o %s %s & p=$!; sleep 2; kill -%s $p; wait $p; rc=$?; "
+                "kill $r 2>/dev/null; exit $rc" % (fifo, fifo, fifo, conv, " ".join(extra), fifo, huge, sig), "signal-%s/huge/%s" % (sig, name), shell="bash")
+    # a reader that takes the whole output, but only after 12 s (a busy consumer, a slow device): no fault at all, the command
+    # may exit 0 only with every record delivered (a result of a few batches, larger than what the pipe holds: the
+    # pipeline is drained at once, the last writes wait for the reader)
+    slow = []
+    for cmd, extra, name in ((conv, ["--json-output"], "json"), (csv, ["--ids", "--sequence"], "csv"), (conv, [], "fasta")):
+        out = os.path.join(d, "slow_%s.out" % name)
+        jobs.append({"argv": ["/bin/bash", "-c", "%s --max-cpu 2 %s %s | (sleep 12; cat > %s); exit ${PIPESTATUS[0]}" % (cmd, " ".join(extra), big, out)], "cwd": d})
+        evs.append({"op": "cmdslow", "argv": "%s %s big.fa | (sleep 12; cat)" % (os.path.basename(cmd), " ".join(extra)), "cls": "slow-reader/big/" + name,
+                    "hung": 0, "want": 3000, "got": -1, "_out": out, "_fmt": name})
     res = ctx.run_many(jobs, timeout=120)
     for e, r in zip(evs, res):
         e["rc"] = r["rc"]
         e["hung"] = 1 if r["timeout"] else 0
+        if e["op"] == "cmdslow":
+            out, fmt = e.pop("_out"), e.pop("_fmt")
+            try:
+                text = open(out, "rb").read()
+                e["got"] = {"json": text.count(b'"id"'), "csv": max(text.count(b"\n") - 1, 0), "fasta": text.count(b">")}[fmt]
+            except OSError:
+                e["got"] = 0
     return evs
